@@ -13,6 +13,9 @@ DAY = 86400
 YEAR = 31556926
 
 
+HINT = {'amount': 10 ** 6, 'duration': 86400 * 30, 'amount1': 10 ** 6, 'amount2': 2 * 10 ** 6, 'duration1': 86400 * 30, 'duration2': 86400 * 60}
+
+
 def _weight(I, amount, dur, denom='lp'):
     c = coin_v(denom, amount)
     cell = [c]
@@ -23,6 +26,7 @@ def _weight(I, amount, dur, denom='lp'):
             statement='for durations in [1 day, 1 year]: Ok(w) with amount <= w <= 16*amount; outside the range: Err(InvalidWeight); never a panic for amounts < 2^128',
             bounds='amount full u128, duration full u64', covers=['ok', 'err_range'])
 def k1(I):
+    I.set_hint(HINT)
     a = I.sym('amount', bits=128)
     d = I.sym('duration', bits=64)
     st, r = _weight(I, a, d)
@@ -42,7 +46,7 @@ def k1(I):
             I.check('overflow_only_for_huge_amounts', smt.And(inrange, a * 17 >= (1 << 128)))
         return
     I.outcome('ok')
-    I.cover('ok')
+    I.cover('ok', HINT)
     w = r.f[0]
     I.check('ok_only_in_range', inrange)
     I.check('weight_at_least_amount', w >= a)
@@ -52,6 +56,7 @@ def k1(I):
 @obligation('C10', 'K2.weight_monotone_amount', entries=['calculate_weight'], kind='R',
             statement='a1 <= a2 => weight(a1, d) <= weight(a2, d)', bounds='amounts full u128, duration in range', covers=['both_ok'])
 def k2(I):
+    I.set_hint(HINT)
     a1 = I.sym('amount1', bits=128)
     a2 = I.sym('amount2', bits=128)
     d = I.sym('duration', lo=DAY, hi=YEAR)
@@ -60,7 +65,7 @@ def k2(I):
     s2, r2 = _weight(I, a2, d)
     if not (s1 == 'ok' and s2 == 'ok' and is_ok(r1) and is_ok(r2)):
         return
-    I.cover('both_ok')
+    I.cover('both_ok', HINT)
     I.check('monotone_in_amount', r1.f[0] <= r2.f[0])
 
 
@@ -68,6 +73,7 @@ def k2(I):
             statement='d1 <= d2 => weight(a, d1) <= weight(a, d2)', bounds='amount full u128, durations in range', covers=['both_ok'],
             opts={'check_timeout_ms': 120000})
 def k3(I):
+    I.set_hint(HINT)
     a = I.sym('amount', bits=128)
     d1 = I.sym('duration1', lo=DAY, hi=YEAR)
     d2 = I.sym('duration2', lo=DAY, hi=YEAR)
@@ -76,5 +82,5 @@ def k3(I):
     s2, r2 = _weight(I, a, d2)
     if not (s1 == 'ok' and s2 == 'ok' and is_ok(r1) and is_ok(r2)):
         return
-    I.cover('both_ok')
+    I.cover('both_ok', HINT)
     I.check('monotone_in_duration', r1.f[0] <= r2.f[0])
